@@ -111,9 +111,13 @@ def build_harness(features=None):
         return _built[key]
     cmd = ["cargo", "build", "--offline"]
     tdir = os.path.join(HARNESS, "target")
+    env = None
     if features:
+        # a build with other features gets its own target directory (the binaries would overwrite each other)
         cmd += ["--features", features]
-    rc, log = sh(cmd, cwd=HARNESS, timeout=3600)
+        tdir = os.path.join(HARNESS, "target-" + features.replace(",", "-"))
+        env = dict(ENV, CARGO_TARGET_DIR=tdir)
+    rc, log = sh(cmd, cwd=HARNESS, timeout=3600, env=env)
     if rc != 0:
         raise BuildError("harness build failed (does /repo still compile?)\n" + log[-3000:])
     _built[key] = os.path.join(tdir, "debug", "verif-harness")
